@@ -264,7 +264,12 @@ def main():
             o2 = opts + [(b"message_format", ALL_DS), (b"filter_chain", b"exclude_spawns_of:zz;only_uid:0")]
             fixed.append({"cfg": {"kind": kind, "ini": gen.render_ini(o2), "opts": o2}, "feats": ["all-data-sources"], "kind": "e",
                           "argv": [b"a", b"b"], "envp": [b"X=1"], "n": 300 if ctx.quick else 1100, "stdio": "pipe", "long": True})
-    pbt.run(ctx, builds, strategy, evaluate, classify, nw, per, sample=sample, fixed_cases=fixed)
+    # the account database and the hosts file are generated inputs here as well (C12 builds them): /etc/hosts has a fully qualified
+    # entry for this machine, so that %{domain} takes its "found" path; long passwd / group lines make the lookups retry
+    import C12
+    C12.make_sysfiles(ctx.run.dir)
+    pbt.run(ctx, builds, strategy, evaluate, classify, nw, per, sample=sample, fixed_cases=fixed,
+            driver_kwargs={"binds": [(v, k) for k, v in sorted(C12.SYSFILES.items())]})
     if not ctx.replay:
         fault_phase(ctx, builds["ts-plain"])
     ctx.finish()
